@@ -105,7 +105,8 @@ inductive Frame where
   | peerDrain (obj : Nat)
   | other
   | finish
-  | handler (op : Nat) (counts : Bool)   -- counts: an I/O completion callback that is not a cancellation (C14)
+  | handler (op : Nat) (counts : Bool) (inline : Bool := false)   -- counts: an I/O completion callback that is not a cancellation (C14);
+                                        -- inline: entered from inside its own starting call (the library raised `Dispatched` around it)
   deriving Repr, DecidableEq, Inhabited
 
 structure S where
@@ -133,19 +134,24 @@ def findOp (s : S) (id : Nat) : Option Op := s.ops.find? (·.id == id)
 def setOp (s : S) (o : Op) : S := { s with ops := o :: s.ops.filter (·.id != o.id) }
 def mapOps (s : S) (f : Op → Op) : S := { s with ops := s.ops.map f }
 
-def depth (s : S) : Nat := (s.stack.filter fun f => match f with | .handler _ _ => true | _ => false).length
+def depth (s : S) : Nat := (s.stack.filter fun f => match f with | .handler _ _ _ => true | _ => false).length
 
 def OpKind.isIO (k : OpKind) : Bool := k.isRead || k.isWrite
 
 /-- C14 counts nested completion callbacks of I/O operations (timer and posted handlers are not completions;
 callbacks delivered by `Cancel` are not immediately completed operations and are outside C14's quantifier). -/
 def ioDepth (s : S) : Nat :=
-  (s.stack.filter fun f => match f with | .handler _ c => c | _ => false).length
+  (s.stack.filter fun f => match f with | .handler _ c _ => c | _ => false).length
+
+/-- Number of inline completion callbacks on the stack = how far the library has raised `IO.Dispatched` above the value
+the program stored (the callback dispatched by the poller is not counted by the library). -/
+def inlineDepth (s : S) : Nat :=
+  (s.stack.filter fun f => match f with | .handler _ _ i => i | _ => false).length
 
 /-- Innermost *call* frame (handlers skipped): tells in which API call we currently are. -/
 def innerCall : List Frame → Option Frame
   | [] => none
-  | .handler _ _ :: r => innerCall r
+  | .handler _ _ _ :: r => innerCall r
   | f :: _ => some f
 
 /-- Is there an enclosing Cancel call on the operation's object?  (An operation started by a handler that runs
@@ -165,7 +171,7 @@ def armedTimer (s : S) (obj : Nat) : Option Op :=
 /-- bump the `dispatched` counter of the innermost poll frame when a handler is entered directly under it -/
 def bumpPoll : List Frame → List Frame
   | [] => []
-  | .handler h c :: r => .handler h c :: r    -- nested under another handler: not a poller dispatch
+  | .handler h c i :: r => .handler h c i :: r    -- nested under another handler: not a poller dispatch
   | .poll k :: r => .poll (k + 1) :: r
   | f :: r => f :: r
 
@@ -216,6 +222,8 @@ def enterChecks (s : S) (o : Op) (res : Res) (n : Int) (data : List UInt8) (earl
     (o.kind.isIO && res != .cancelled && ioDepth s + 1 > maxDispatch + 1, "nesting-deeper-than-limit"),
     (o.state == .starting && s.regular.contains o.obj && res == .err && s.forcedDisp ≥ (maxDispatch : Int),
       "regular-file-not-deferrable"),
+    -- when the bound is reached the next operation is deferred to the poller (only a failure to register is reported at once)
+    (o.state == .starting && o.atLimit && o.kind.isIO && res == .ok, "completed-inline-at-the-dispatch-limit"),
     -- C04 / C05
     (o.kind.isTimer && early, "timer-early"),
     (o.kind == .post && s.posts.head? != some o.id, "post-order"),
@@ -238,7 +246,7 @@ def enterNext (s : S) (o : Op) (res : Res) (n : Int) : S :=
   let st' : OpState := if o.kind == .timerRep then .running else .done
   let s := setOp s { o with state := st' }
   let s := if o.kind == .post then { s with posts := s.posts.drop 1 } else s
-  { s with stack := .handler o.id (o.kind.isIO && res != .cancelled) :: bumpPoll s.stack }
+  { s with stack := .handler o.id (o.kind.isIO && res != .cancelled) (o.state == .starting && o.kind.isIO) :: bumpPoll s.stack }
 
 /-- What is checked when a call returns (frame `f` popped, `s` already without it). -/
 def retStepWith (g : Guard) (s : S) (f : Frame) (r : Ret) : M S :=
@@ -273,7 +281,7 @@ def retStepWith (g : Guard) (s : S) (f : Frame) (r : Ret) : M S :=
     -- (inside the timer's own callback the schedule is in transition: a repeating timer is re-armed only after the
     -- callback returns; the property is not read as fixing the flag there)
     let inOwnHandler := s.stack.any fun f => match f with
-      | .handler h _ => (match findOp s h with | some o => o.obj == obj && o.kind.isTimer | none => false)
+      | .handler h _ _ => (match findOp s h with | some o => o.obj == obj && o.kind.isTimer | none => false)
       | _ => false
     g [(!inOwnHandler && b != ((s.ops.find? fun o => o.obj == obj && o.kind.isTimer && o.state == .inflight).isSome),
               "scheduled-flag-wrong")] s
@@ -326,7 +334,7 @@ def stepWith (g : Guard) (s : S) : Ev → M S
   | .callStart op obj kind len =>
       g [((findOp s op).isSome, "op-id-reused")]
         { (setOp s { id := op, obj := obj, kind := kind, len := len, state := .starting,
-                     atLimit := decide (s.forcedDisp + (ioDepth s : Int) ≥ (maxDispatch : Int)) }) with stack := .start op :: s.stack }
+                     atLimit := decide (s.forcedDisp + (inlineDepth s : Int) ≥ (maxDispatch : Int)) }) with stack := .start op :: s.stack }
   | .callCancel obj =>
       let snap := (inflightOps s).filter (fun o => o.obj == obj && !o.kind.isTimer && o.kind != .post) |>.map (·.id)
       .ok { s with stack := .cancel obj snap :: s.stack }
@@ -354,7 +362,7 @@ def stepWith (g : Guard) (s : S) : Ev → M S
       | some o => g (enterChecks s o res n data early) (enterNext s o res n)
   | .exit op =>
       match s.stack with
-      | .handler h _ :: r =>
+      | .handler h _ _ :: r =>
         if h == op then
           -- the callback of a repeating schedule returns: the schedule continues (is armed again) unless the callback
           -- cancelled / closed the timer (then it is `dropped`) or left another schedule armed on the same timer (the
